@@ -1169,6 +1169,14 @@ class PSBTIn:
                 or script_pubkey.is_p2wpkh()
             ):
                 raise ValueError("Witness UTXO provided for non-witness input")
+            if (
+                script_pubkey.is_p2sh()
+                and self.redeem_script
+                and not self.redeem_script.is_witness_script()
+            ):
+                # a p2sh output whose RedeemScript is not a witness program is a
+                # legacy input and has to come with its previous transaction
+                raise ValueError("Witness UTXO provided for non-witness input")
             if self.witness_script:  # p2wsh or p2sh-p2wsh
                 if not script_pubkey.is_p2wsh() and not (
                     self.redeem_script and self.redeem_script.is_p2wsh()
